@@ -43,6 +43,9 @@ def impl_compile(impl, p):
         return None
 
 
+EDGE_WS_PATTERNS = ["  vMAJOR.MINOR.PATCH", "MAJOR.MINOR.PATCH ", "\tvYYYY0M.BUILD[-TAG]", " YYYY.0M.0D ", "  version: MAJOR.MINOR[.PATCH]"]
+
+
 def week53(v, pat):
     """known finding class: %W / %U reach 53 but WW/0W/UU/0U regexes stop at 52"""
     return ((v.week_w == 53 and any(x in pat for x in ("WW", "0W"))) or (v.week_u == 53 and any(x in pat for x in ("UU", "0U"))))
@@ -103,6 +106,10 @@ def run(rep, tier, seed, model_ok=True, effort=1):
     seen_pat = set()
     for i in range(n):
         pat, info = v2gen.gen_pattern(r, allow_bad_week=False)
+        if i < 3 * len(EDGE_WS_PATTERNS):
+            # literal text includes blanks at either end of a pattern (an indented assignment, a trailing blank before a comment)
+            pat = EDGE_WS_PATTERNS[i % len(EDGE_WS_PATTERNS)]
+            info = dict(wf=True, bridge=False, cal="y" if "YYYY" in pat else None, has_num=True, tag="", prefix="", suffix="", sep=".")
         v, d = v2gen.gen_state(r, impl)
         if pat not in seen_pat:
             seen_pat.add(pat)
@@ -141,6 +148,32 @@ def run(rep, tier, seed, model_ok=True, effort=1):
                 rep.count("parse=" + (res if isinstance(res, str) else "ok"))
                 parse_items.append("(%s,%s,%s)" % (cs(cand), cs(pat), v2gen.cpres_vinfo(res)))
                 parse_meta.append((cand, pat, res))
+        if in_scope and s and i % 3 == 0 and not week53(v, pat):
+            # "every version state reachable by bumping": bump the rendered text (any flags, dates pinned or later) -- what comes out is a legal
+            # current version of the same pattern: accepted in full, and rendered again it is the same text
+            fl = v2gen.gen_flags(r)
+            try:
+                nd = d + dt.timedelta(days=r.choice([0, 1, 31, 400]))
+            except OverflowError:
+                nd = d
+            try:
+                s2 = impl.v2version.incr(s, pat, major=fl["major"], minor=fl["minor"], patch=fl["patch"], tag=fl["tag"], tag_num=fl["tag_num"], pin_increments=fl["pin_increments"],
+                                         pin_date=fl["pin_date"], maybe_date=None if fl["pin_date"] else nd)
+            except Exception as ex:
+                s2 = None
+            rep.count("bumped=%s" % ("ok" if s2 else "refused"))
+            if s2 and 1000 <= nd.year <= 9999:
+                c2 = impl.v2version.cal_info(nd)
+                wk53 = (c2.week_w == 53 and any(x in pat for x in ("WW", "0W"))) or (c2.week_u == 53 and any(x in pat for x in ("UU", "0U")))
+                two_digit_out = bool(info["cal"]) and info["cal"].endswith("2") and not (2001 <= nd.year <= 2098)
+                res2 = impl_parse(impl, s2, pat)
+                if isinstance(res2, str) and not wk53 and not two_digit_out:
+                    rep.violation("a bumped version is rejected by the pattern it was made with (%s)" % res2,
+                                  input=dict(pattern=pat, old=s, flags={k_: v_ for k_, v_ in fl.items() if v_}, date=None if fl["pin_date"] else str(nd), new=s2), **{"class": "bumped-not-accepted"})
+                elif not isinstance(res2, str):
+                    s3 = impl_format(impl, res2[1], pat)
+                    if s3 != s2 and not wk53 and not two_digit_out:
+                        rep.violation("a bumped version read back and rendered again gives a different text", input=dict(pattern=pat, old=s, new=s2, rendered_again=s3, flags={k_: v_ for k_, v_ in fl.items() if v_}), **{"class": "bumped-not-stable"})
         rep.sample(dict(pattern=pat, date=str(d), rendered=s, wf=info["wf"]))
     # witnesses of the known finding (week 53), replayed on every run
     from bumpver import version as _ver
